@@ -1,4 +1,5 @@
 import Ecal.Model.Mutex
+import Ecal.Model.ThreadId
 import Ecal.Lemmas.Mutex
 import Ecal.Gen.C12
 /-!
@@ -359,5 +360,39 @@ theorem skeleton_matches : Ecal.Gen.C12.skeleton = [
     "else if O == tid",                                    -- re-entrant: nothing locked, nothing deferred
     "end",
     "body"] := by decide
+
+/-! ### Thread ids are > 0 and pairwise distinct
+
+`Ecal.Mutex` identifies a thread with its id. The ids come from `ThreadPool.NewThreadID`
+(also behind `erp.NewThreadID`), modelled in `Ecal.ThreadId`. -/
+
+/-- **Ids are distinct.** With the read and the increment of the counter inside one critical
+    section, for any number of concurrent callers and every interleaving of their steps, the ids
+    handed out are pairwise distinct and > 0. -/
+theorem ids_distinct {s : ThreadId.State} (h : ThreadId.Reach true s) :
+    s.issued.Nodup ∧ ∀ i, i ∈ s.issued → 0 < i := by
+  have hi := ThreadId.inv_reach h
+  exact ⟨hi.nodup, fun i hm => (hi.below i hm).1⟩
+
+/-- Negative witness: the same two accesses *without* the common critical section ("load, then
+    add", each atomic by itself) hand the same id to two callers. -/
+theorem load_then_add_duplicates :
+    (ThreadId.run false ThreadId.init [.acquire 1, .acquire 2, .load 1, .load 2, .add 1, .add 2,
+      .release 1, .release 2]).map (·.issued) = some [1, 1] := by decide
+
+/-- …and with the lock that interleaving is impossible (the second caller cannot enter). -/
+example : (ThreadId.run true ThreadId.init [.acquire 1, .acquire 2]).isSome = false := by decide
+
+/-- The shape of `NewThreadID` extracted from `/repo` on every run (`Ecal.Gen.C12.idSkeleton`):
+    the read and the increment of the id counter happen inside ONE critical section (or are one
+    atomic read-modify-write whose result is the id) — the protocol `ids_distinct` is about. -/
+theorem newThreadID_is_one_critical_section :
+    ThreadId.isAtomicAlloc Ecal.Gen.C12.idSkeleton = true := by decide
+
+example : ThreadId.isAtomicAlloc ["aload", "aadd-unused"] = false := by decide
+example : ThreadId.isAtomicAlloc ["lock", "read", "unlock", "lock", "inc", "unlock"] = false := by decide
+example : ThreadId.isAtomicAlloc ["read", "lock", "inc", "unlock"] = false := by decide
+example : ThreadId.isAtomicAlloc ["aadd-used"] = true := by decide
+example : ThreadId.isAtomicAlloc ["lock", "read", "inc", "unlock"] = true := by decide
 
 end Ecal.Props.C12
